@@ -39,11 +39,17 @@ class FailurePath(Exception):
 
 class SV:
     """Symbolic scalar: wraps a z3 term of sort Int, Real, Bool or String."""
-    __slots__ = ("t",)
+    __slots__ = ("t", "nan")
 
-    def __init__(self, t):
+    def __init__(self, t, nan=None):
         assert isinstance(t, z3.ExprRef), t
         self.t = t
+        # float NaN flag (z3 Bool) for reals that may be NaN; None = never NaN
+        if nan is not None and not isinstance(nan, z3.ExprRef):
+            nan = z3.BoolVal(True) if nan else None
+        if nan is not None and z3.is_false(nan):
+            nan = None
+        self.nan = nan
 
     @property
     def is_int(self):
@@ -62,7 +68,7 @@ class SV:
         return z3.is_string(self.t)
 
     def __repr__(self):
-        return f"SV({self.t})"
+        return f"SV({self.t})" if self.nan is None else f"SV({self.t} nan={self.nan})"
 
     def __bool__(self):
         raise Unsupported("python-level truth test on a symbolic value (engine bug): %r" % self)
